@@ -40,6 +40,24 @@ GroupLayout(mand, opt) ==
    tail      |-> <<"container">>]
 ContainerLayout == <<"instance", "context">>   \* followed by one ret_tmp_<trait> field per trait
 
+(* the container of a single-trait object in machine words, counted from the start of the object (word 0 is the  *)
+(* vtable pointer): instance, then context, then temporary storage.  A zero-sized context (no context) or storage *)
+(* (no method returning a wrapped reference) occupies nothing, so an implementation that swaps two fields is       *)
+(* bit-identical unless BOTH are present - hence the full product of cases.                                       *)
+InstWords == [box |-> 2, ref |-> 1]        \* CBox = {pointer, drop function}, & = pointer
+CtxWords == [none |-> 0, arc |-> 3]        \* CArc = {pointer, clone function, drop function}
+(* temporary storage for one method returning `&Self::Ret` wrapped as an object: vtable pointer, &instance, context clone *)
+TmpWords(t, c) == IF t = "none" THEN 0 ELSE 2 + CtxWords[c]
+ContainerCases == {[inst |-> i, ctx |-> c, tmp |-> t] : i \in {"box", "ref"}, c \in {"none", "arc"}, t \in {"none", "objref"}}
+ContainerWords(k) ==
+  [inst_at |-> 1, ctx_at |-> 1 + InstWords[k.inst], tmp_at |-> 1 + InstWords[k.inst] + CtxWords[k.ctx],
+   words |-> 1 + InstWords[k.inst] + CtxWords[k.ctx] + TmpWords(k.tmp, k.ctx)]
+(* fields never overlap and come in the documented order *)
+ContainerOrdered == \A k \in ContainerCases : LET w == ContainerWords(k) IN
+   /\ w.inst_at < w.ctx_at /\ w.ctx_at <= w.tmp_at /\ w.tmp_at <= w.words
+   /\ (k.ctx = "arc" => w.ctx_at < w.tmp_at) /\ (k.tmp = "objref" => w.tmp_at < w.words)
+ASSUME ContainerOrdered
+
 (* all listing orders of a set *)
 Perms(S) == {s \in [1..Cardinality(S) -> S] : \A i, j \in 1..Cardinality(S) : i # j => s[i] # s[j]}
 
@@ -64,5 +82,6 @@ VARIABLE done
 Init == done = FALSE
 Next == UNCHANGED done
 Emit == PrintT(<<"REPLAY", ToJson([traits |-> [t \in Names |-> VtblLayout(t)], decls |-> [t \in Names |-> Pool[t]],
+                                    containers |-> {[case |-> k, at |-> ContainerWords(k)] : k \in ContainerCases},
                                     groups |-> {[listing |-> l, layout |-> GroupLayout(l.mand, l.opt)] : l \in Listings}])>>)
 =============================================================================
